@@ -49,6 +49,7 @@ fn decoded_segments(presentation: &str) -> Vec<String> {
 }
 
 pub fn run_case(ctx: &mut Ctx, case: &Value) {
+    crate::real::set_current(case);
     ctx.report.evaluations += 1;
     let ic = match issue_own(ctx, case, "C06") {
         Some(ic) => ic,
